@@ -15,6 +15,7 @@
    theorems hold for every oracle.  [lang]/[full_lang]/[search_lang] are the semantics of the
    expressions (Lib/RegexM.v), [search] is regexp.MatchString. *)
 From Verif Require Import Lib.Base Lib.RegexM Model.C13_Accounts Proofs.C13 Proofs.C13_Store Proofs.C13_Match.
+From Verif Require Import Check.C13 Proofs.C13_Check.
 From Coq Require Import String.
 Open Scope N_scope.
 
@@ -351,6 +352,28 @@ Proof.
   repeat (split; [reflexivity || assumption|]). assumption.
 Qed.
 Print Assumptions C13_full_match_ungrouped_refuted.
+
+(* ------------------------------------------------------------------------------------------- *)
+(* What the check's predicate establishes about an OBSERVED history (the model is not involved):
+   P_b true means -- unless the wallet manager's constructor failed on a failing first validator
+   refresh -- that from the empty service every observed refresh result and every observed answer
+   satisfies the property, step by step ([holds], Proofs/C13_Check.v):
+   a refresh result either contains only offered accounts covered by a specifier (whole name
+   matches (wallet part)/(account part), or the wallet is named as a whole) and every offered,
+   unlockable account a plain specifier names, or is the old list (nothing that must be used
+   having been offered), and the dirk manager's list is never wiped; an answer contains only
+   (index, account) pairs of known accounts' validators under their own index, within the index
+   filter, active-and-unslashed resp. sync eligible at the epoch (or outside the hypotheses of
+   C13_state_filter), and contains all of those that are within the hypotheses; the validator
+   store the answers are judged against is never replaced by an error or an empty answer. *)
+Theorem C13_P_b_sound :
+  forall c : case,
+    P_b c = true ->
+    (exists offered ops', c_mgr (c_cfg c) = Wallet /\ c_ops c = Refresh offered VErr :: ops' /\
+                          exists rest, c_outs c = OCtorErr :: rest)
+    \/ holds (lookup_parse (c_parse c)) (c_cfg c) [] [] (c_ops c) (c_outs c).
+Proof. exact P_b_sound. Qed.
+Print Assumptions C13_P_b_sound.
 
 (* ------------------------------------------------------------------------------------------- *)
 (* Non-vacuity. *)
